@@ -73,4 +73,11 @@ def digitVal (b : UInt8) : Nat := b.toNat - 48
 /-- value of a run of ASCII digits, most significant first -/
 def digitsVal (bs : List UInt8) : Nat := bs.foldl (fun acc b => acc * 10 + digitVal b) 0
 
+/-- lexicographic `<` on byte strings (`[u8]::cmp`, which is also `str::cmp`) -/
+def bytesLt : List UInt8 → List UInt8 → Bool
+  | [], [] => false
+  | [], _ :: _ => true
+  | _ :: _, [] => false
+  | a :: as, b :: bs => a < b || (a == b && bytesLt as bs)
+
 end EmitModel.Text
